@@ -51,3 +51,37 @@ Theorem TIE_genir_sorted_stable : forall (A : Type) (k : Z) (l : list (Z * A)),
   filter (fun y => Z.eqb (fst y) k) (py_sorted_desc l) = filter (fun y => Z.eqb (fst y) k) l.
 Proof. exact (@gen_sorted_desc_stable). Qed.
 Print Assumptions TIE_genir_sorted_stable.
+
+(** (c) ALIGNMENT, for EVERY definition, EVERY graph, every capacity: the assemble kernel and the compute kernel are the
+    evaluate kernel with statements dropped -- same parameters, same return type, and [Sub body_evaluate body_kind]: every
+    statement of the kind's body is the IDENTICAL statement of evaluate's body at the corresponding place (blocks, branches
+    and loops matched recursively with identical conditions), evaluate's other statements are dropped, or a whole statement
+    faces an empty block.  (The role / taint side conditions of Certs3Defs.alignA / alignC are NOT part of this statement.) *)
+Theorem TIE_genir_assemble_aligned : forall cap d g fe fa,
+  generate_ir cap d g GlueGen.KernelType_evaluate = Some fe ->
+  generate_ir cap d g GlueGen.KernelType_assemble = Some fa -> aligned fe fa.
+Proof. exact gen_assemble_aligned. Qed.
+Print Assumptions TIE_genir_assemble_aligned.
+
+Theorem TIE_genir_compute_aligned : forall cap d g fe fc,
+  generate_ir cap d g GlueGen.KernelType_evaluate = Some fe ->
+  generate_ir cap d g GlueGen.KernelType_compute = Some fc -> aligned fe fc.
+Proof. exact gen_compute_aligned. Qed.
+Print Assumptions TIE_genir_compute_aligned.
+
+(** every fragment of the dispatch family, any node / output / depth *)
+Theorem TIE_genir_family_assemble_aligned : forall fuel n g o,
+  wp2 (to_ir_iteration_graph fuel n g o KernelType_evaluate) (to_ir_iteration_graph fuel n g o KernelType_assemble) rel_sb.
+Proof. exact family_EA. Qed.
+Print Assumptions TIE_genir_family_assemble_aligned.
+
+Theorem TIE_genir_family_compute_aligned : forall fuel n g o,
+  wp2 (to_ir_iteration_graph fuel n g o KernelType_evaluate) (to_ir_iteration_graph fuel n g o KernelType_compute) rel_sb.
+Proof. exact family_EC. Qed.
+Print Assumptions TIE_genir_family_compute_aligned.
+
+(** a registered function returns a builder that carries its comment (it is appended as ONE block) *)
+Theorem TIE_genir_iteration_comment : forall fuel rec_ iv out nxt o k,
+  wp (to_ir_iteration_variable fuel rec_ (IgIterationNode iv out nxt) o k) (hasc ("*** Iteration over " ++ iv ++ " ***")).
+Proof. exact iteration_comment. Qed.
+Print Assumptions TIE_genir_iteration_comment.
